@@ -233,3 +233,6 @@ fn strlex_lit_step_l5() { lit_step::<5>(false) }
 #[kani::proof]
 #[kani::stub(std::fmt::format, nofmt)]
 fn strlex_lit_step_cont_l4() { lit_step::<4>(true) }
+#[kani::proof]
+#[kani::stub(std::fmt::format, nofmt)]
+fn strlex_lit_step_cont_l3() { lit_step::<3>(true) }
